@@ -1,7 +1,9 @@
 (* Correspondence harness for C18, unit routing (routing generators).
 
    Model-vs-code checks ("the Gallina post-processing reproduces what the real generator emitted on these raw
-   samples") return 1 on a difference; property checks (the executable wfb / solvableb predicates evaluated on the
+   samples") ALSO judge the implementation's own output for those (legal) raw samples by the property's predicates,
+   independently of the model ([judge]): 1 = model differs, output fine; 6 = model agrees, property false on the
+   output; 16 = model differs AND property false on the output (a concrete failing input: these draws); property checks (the executable wfb / solvableb predicates evaluated on the
    implementation's own output) return 6 when the property is false, 12 when the instance is outside the documented
    format, 10 when the property holds only within the stated float tolerance (counted, not a failure).  0 = fine. *)
 From Coq Require Import ZArith QArith Qround List Bool Lia Arith.
@@ -17,6 +19,9 @@ Definition oq_eqb (a b : option Q) : bool :=
 Definition qoq_eqb (a b : Q * option Q) : bool := Qeq_bool (fst a) (fst b) && oq_eqb (snd a) (snd b).
 Definition Qabsq (x : Q) : Q := if Qle_bool 0 x then x else (- x)%Q.
 Definition q_close (tol a b : Q) : bool := Qle_bool (Qabsq (a - b)) tol.
+
+Definition judge (agree prop_ok : bool) : Z :=
+  if prop_ok then (if agree then 0 else 1) else (if agree then 6 else 16).
 
 (* ------------------------------------------------------------------ size tables *)
 (* which: 0 = CVRP CAPACITIES, 1 = OP / PCTSP MAX_LENGTHS, 2 = MTVRP get_vehicle_capacity *)
@@ -34,9 +39,9 @@ Definition check_table (c : nat * Z * Z) : Z :=
 Definition check_cvrp (c : Z * option Z * Z * Z * list Q * list Z * Z) : Z :=
   let '(n, ovr, lo, hi, us, obs, cobs) := c in
   let i := gen_cvrp (cvrp_capacity ovr n) us [] in
-  if negb (list_eqb Z.eqb (dem i) obs && (cap i =? cobs)) then 1
-  else if negb (cvrp_wfb i) then 12
-  else if negb (cvrp_solvableb i) then 6 else 0.
+  let io := {| dem := obs; cap := cobs; dist := []; tol := 0 |} in
+  judge (list_eqb Z.eqb (dem i) obs && (cap i =? cobs))
+        (cvrp_wfb io && cvrp_solvableb io && forallb (fun k => (lo <=? k) && (k <=? hi - 1)) obs).
 (* property on a generated row: demands and vehicle capacity as scaled integers *)
 Definition check_cvrp_prop (c : list Z * Z) : Z :=
   let '(d, cp) := c in
@@ -48,9 +53,9 @@ Definition check_cvrp_prop (c : list Z * Z) : Z :=
 Definition check_cvrptw (c : Q * list (Q * Q * Q * Q) * list (Z * Z)) : Z :=
   let '(T, cust, obs) := c in
   let w := gen_cvrptw T cust in
-  if negb (list_eqb zz_eqb w obs) then 1
-  else if negb (forallb (fun cw => let '(d, dur, _, _) := fst cw in cvrptw_customer_okb T d dur (snd cw))
-                        (combine cust (tl w))) then 6 else 0.
+  judge (list_eqb zz_eqb w obs)
+        (zz_eqb (hd (1, 0) obs) (cvrptw_depot_window T) && (length obs =? S (length cust))%nat &&
+         forallb (fun cw => let '(d, dur, _, _) := fst cw in cvrptw_customer_okb T d dur (snd cw)) (combine cust (tl obs))).
 (* property on a generated row (windows may be scaled floats): per customer (d, dur, lo, hi); H = depot deadline *)
 Definition cvrptw_okq (tol H d dur lo hi : Q) : bool :=
   Qle_bool 0 lo && negb (Qle_bool hi lo) && Qle_bool d (hi + tol) && Qle_bool (hi + dur + d) (H + tol).
@@ -65,11 +70,14 @@ Definition check_mtvrp_tw (c : Q * Q * Q * Q * Q * Q * Q * Q * Q * Q) : Z :=
   let '(tol, T, speed, d, r1, r2, r3, olo, ohi, osvc) := c in
   let s := mtvrp_service r1 in
   let w := mtvrp_tw T speed d s (mtvrp_twlen r2) r3 in
-  if q_close tol (fst w) olo && q_close tol (snd w) ohi && q_close tol s osvc then 0 else 1.
+  judge (q_close tol (fst w) olo && q_close tol (snd w) ohi && q_close tol s osvc)
+        (Qle_bool (d / speed) (olo + tol) && negb (Qle_bool ohi olo) && Qle_bool (ohi + osvc + d / speed) (T + tol)
+         && Qle_bool ((15 # 100) - tol) osvc && Qle_bool osvc ((18 # 100) + tol)).
 (* generate_demands on one node: (ratio, ul, ub, r, observed linehaul, observed backhaul) *)
 Definition check_mtvrp_dem (c : Q * Q * Q * Q * Z * Z) : Z :=
   let '(ratio, ul, ub, r, ol, ob) := c in
-  if zz_eqb (mtvrp_demand ratio ul ub r) (ol, ob) then 0 else 1.
+  judge (zz_eqb (mtvrp_demand ratio ul ub r) (ol, ob))
+        (((ob =? 0) && (1 <=? ol) && (ol <=? 9)) || ((ol =? 0) && (1 <=? ob) && (ob <=? 9))).
 
 Definition row_eqb (a b : mtvrp_row) : bool :=
   Bool.eqb (r_open a) (r_open b) && list_eqb qoq_eqb (r_tw a) (r_tw b) && list_eqb Qeq_bool (r_svc a) (r_svc b) &&
@@ -112,16 +120,15 @@ Definition check_mtvrp_prop (c : Z * Q * list Q * mtvrp_row) : Z :=
 Definition check_op_dist (c : list Q * list Z) : Z :=
   let '(ds, obs) := c in
   let dmax := match ds with [] => 0%Q | d0 :: r => qmaxl d0 r end in
-  if negb (list_eqb Z.eqb (map (fun d => op_prize_dist d dmax) ds) obs) then 1
-  else if forallb (fun p => (1 <=? p) && (p <=? 100)) obs then 0 else 6.
+  judge (list_eqb Z.eqb (map (fun d => op_prize_dist d dmax) ds) obs)
+        (forallb (fun p => (1 <=? p) && (p <=? 100)) obs && existsb (fun p => p =? 100) obs).
 
 (* prize_type "unif": (randint draws, observed prizes x100);  "const": (num_loc, observed prizes x100) *)
 Definition check_op_unif (c : list Z * list Z) : Z :=
   let '(ks, obs) := c in
-  if negb (list_eqb Z.eqb (op_prizes_unif ks) obs) then 1
-  else if forallb (fun p => (1 <=? p) && (p <=? 100)) obs then 0 else 6.
+  judge (list_eqb Z.eqb (op_prizes_unif ks) obs) (forallb (fun p => (1 <=? p) && (p <=? 100)) obs && (length obs =? length ks)%nat).
 Definition check_op_const (c : nat * list Z) : Z :=
-  let '(n, obs) := c in if list_eqb Z.eqb (op_prizes_const n) obs then 0 else 1.
+  let '(n, obs) := c in judge (list_eqb Z.eqb (op_prizes_const n) obs) (forallb (fun p => p =? 100) obs && (length obs =? n)%nat).
 (* property on a generated row: ptype 0 const / 1 unif / 2 dist; prizes as exact rationals of the float32 values:
    1/100 <= p <= 1 (up to tol), const: all exactly 1, dist: the largest prize is exactly 1, and 100 p is an integer up to tol *)
 Definition near_hundredth (tol p : Q) : bool :=
@@ -139,8 +146,8 @@ Definition check_op_prop (c : nat * Q * list Q) : Z :=
 Definition check_svrp (c : list Q * list Q * list Q * list Q) : Z :=
   let '(raw, us, otechs, oskills) := c in
   let techs := svrp_techs raw in
-  if negb (list_eqb Qeq_bool techs otechs && list_eqb Qeq_bool (svrp_skills techs us) oskills) then 1
-  else if svrp_solvableb otechs oskills then 0 else 6.
+  judge (list_eqb Qeq_bool techs otechs && list_eqb Qeq_bool (svrp_skills techs us) oskills)
+        (svrp_solvableb otechs oskills && (length otechs =? length raw)%nat && (length oskills =? length us)%nat).
 Definition check_svrp_prop (c : list Q * list Q) : Z :=
   let '(techs, skills) := c in if svrp_solvableb techs skills then 0 else 6.
 Definition check_pdp (c : Z * Z) : Z := let '(n, obs) := c in if pdp_num_loc n =? obs then 0 else 1.
@@ -150,6 +157,7 @@ Example check_routing_ex :
   check_cvrp (17, None, 1, 10, [0; 35 # 4]%Q, [1; 9], 25) = 0 /\
   check_cvrp (17, None, 1, 11, [0; 9]%Q, [1; 10], 25) = 0 /\
   check_cvrp (20, Some 5, 1, 10, [8]%Q, [9], 5) = 6 /\
+  check_cvrptw (480%Q, [((101 # 2), 0, 0, 0)]%Q, [(0, 480); (49, 50)]) = 16 /\
   check_cvrptw (480%Q, [((101 # 2), 0, (1 # 1000), (2 # 1000))]%Q, [(0, 480); (50, 51)]) = 0 /\
   check_cvrptw (480%Q, [(300, 0, (1 # 4), (1 # 2))]%Q, [(0, 480); (240, 270)]) = 6 /\
   check_pdp (7, 8) = 0.
